@@ -142,12 +142,15 @@ IsCanonLex(ty, s) ==
        [] OTHER -> TRUE
 
 \* ------------------------------------------------------------------- schema
-Leaf(n, mod, ty) == [k |-> "leaf", n |-> n, mod |-> mod, ty |-> ty, user |-> FALSE, pres |-> FALSE, key |-> "", kids |-> << >>]
-LeafList(n, mod, ty, user) == [k |-> "ll", n |-> n, mod |-> mod, ty |-> ty, user |-> user, pres |-> FALSE, key |-> "", kids |-> << >>]
-Cont(n, mod, pres, kids) == [k |-> "cont", n |-> n, mod |-> mod, ty |-> NoTy, user |-> FALSE, pres |-> pres, key |-> "", kids |-> kids]
-List(n, mod, key, user, kids) == [k |-> "list", n |-> n, mod |-> mod, ty |-> NoTy, user |-> user, pres |-> FALSE, key |-> key, kids |-> kids]
+\* dflt: default value of a leaf ("" = none); uniq: the leaf named by a list's unique statement ("" = none)
+LeafD(n, mod, ty, dflt) == [k |-> "leaf", n |-> n, mod |-> mod, ty |-> ty, user |-> FALSE, pres |-> FALSE, key |-> "", kids |-> << >>, dflt |-> dflt, uniq |-> ""]
+Leaf(n, mod, ty) == LeafD(n, mod, ty, "")
+LeafList(n, mod, ty, user) == [k |-> "ll", n |-> n, mod |-> mod, ty |-> ty, user |-> user, pres |-> FALSE, key |-> "", kids |-> << >>, dflt |-> "", uniq |-> ""]
+Cont(n, mod, pres, kids) == [k |-> "cont", n |-> n, mod |-> mod, ty |-> NoTy, user |-> FALSE, pres |-> pres, key |-> "", kids |-> kids, dflt |-> "", uniq |-> ""]
+ListU(n, mod, key, user, uniq, kids) == [k |-> "list", n |-> n, mod |-> mod, ty |-> NoTy, user |-> user, pres |-> FALSE, key |-> key, kids |-> kids, dflt |-> "", uniq |-> uniq]
+List(n, mod, key, user, kids) == ListU(n, mod, key, user, "", kids)
 \* the model set: top-level nodes of all modules; "no module" so that every top-level name is qualified
-Root(kids) == [k |-> "root", n |-> "", mod |-> "", ty |-> NoTy, user |-> FALSE, pres |-> TRUE, key |-> "", kids |-> kids]
+Root(kids) == [k |-> "root", n |-> "", mod |-> "", ty |-> NoTy, user |-> FALSE, pres |-> TRUE, key |-> "", kids |-> kids, dflt |-> "", uniq |-> ""]
 HasChild(sn, name) == \E i \in 1..Len(sn.kids) : sn.kids[i].n = name
 Child(sn, name) == sn.kids[CHOOSE i \in 1..Len(sn.kids) : sn.kids[i].n = name]
 
@@ -162,6 +165,17 @@ NormVals(sn, vals) == IF sn.k = "leaf" /\ sn.ty.b = "empty" /\ vals = <<"">> THE
 \* Conformance of a tree to a schema (structure, value spaces, RFC 6020 7.7/7.8 uniqueness).
 \* "" = conforms; otherwise the first reason found.  A leaf-list or list node without entries
 \* carries no data and is not judged.
+\* RFC 6020 7.8.3: the values of the leaf named by `unique`, "including leafs with default values", are
+\* distinct over the entries in which the leaf exists; i.e. the constraint is read on the default-decorated
+\* tree (7.6.1: an omitted leaf with a default is in use with that value)
+EffVal(sn, e, leaf) ==      \* sequence: <<value>> or << >>
+  LET is == {j \in 1..Len(e.kids) : e.kids[j].n = leaf} IN
+  IF is # {} THEN e.kids[MinOf(is)].vals
+  ELSE IF HasChild(sn, leaf) /\ Child(sn, leaf).dflt # "" THEN <<Child(sn, leaf).dflt>> ELSE << >>
+UniqueOK(sn, es) ==
+  \/ sn.uniq = ""
+  \/ \A i, j \in 1..Len(es) : i < j => \/ EffVal(sn, es[i], sn.uniq) = << >>
+                                        \/ EffVal(sn, es[i], sn.uniq) # EffVal(sn, es[j], sn.uniq)
 RECURSIVE ConfNode(_, _), ConfKids(_, _, _)
 ConfVals(sn, vals) ==
   LET bad == {i \in 1..Len(vals) : Accepts(sn.ty, sn.mod, vals[i]) = "no"} IN
@@ -188,6 +202,7 @@ ConfNode(sn, t) ==
     [] sn.k = "list" ->
          IF t.vals # << >> THEN "list-with-value"
          ELSE IF ~Distinct(KidNames(t)) THEN "duplicate-key"
+         ELSE IF ~UniqueOK(sn, t.kids) THEN "unique"
          ELSE LET bad == {i \in 1..Len(t.kids) :
                             LET e == t.kids[i] IN
                             \/ e.vals # << >> \/ ~Distinct(KidNames(e))
@@ -387,7 +402,9 @@ DecJScalar(rfc, csn, jv) ==
            acc == Accepts(csn.ty, csn.mod, v)
        IN IF acc = "no" THEN [cls |-> "error", v |-> ""]
           ELSE IF acc = "unj" \/ ~IsCanonLex(csn.ty, v) THEN [cls |-> "open", v |-> ""]
-          ELSE IF Native(rfc, b, jv.t) /\ (rfc \/ v = LitOf(jv)) THEN [cls |-> "tree", v |-> v]
+          \* the qualified name of an identity of the leaf's own module (6.8) is an alternative spelling no
+          \* encoding here contains: accepted (as the bare name) or rejected
+          ELSE IF Native(rfc, b, jv.t) /\ v = LitOf(jv) THEN [cls |-> "tree", v |-> v]
           ELSE [cls |-> "either", v |-> v]
 
 \* resolve a member name against the children of psn:  [st, n]
@@ -435,6 +452,8 @@ DecJNode(rfc, csn, jv) ==
                               ELSE Out(r.cls, N(r.kids[MinOf(ks)].vals[1], << >>, r.kids))])
                   cls == CombAll(es, 1)
               IN IF cls \in {"tree", "either"} /\ ~Distinct([i \in 1..Len(es) |-> es[i].t.n]) THEN OpenOut
+                 \* a validating decoder judges the default-decorated tree
+                 ELSE IF cls \in {"tree", "either"} /\ ~UniqueOK(csn, Mat([i \in 1..Len(es) |-> es[i].t])) THEN ErrOut
                  ELSE Out(cls, N(csn.n, << >>, Mat([i \in 1..Len(es) |-> es[i].t])))
 \* members of an object -> [cls, kids]
 DecJMembers(rfc, psn, pmod, m, i, dups) ==
@@ -587,6 +606,7 @@ DecXGroup(csn, g) ==       \* all same-named sibling elements of one data node -
                                    ELSE Out(r.cls, N(r.kids[MinOf(ks)].vals[1], << >>, r.kids))])
                        cls == CombAll(es, 1)
                    IN IF cls \in {"tree", "either"} /\ ~Distinct([i \in 1..Len(es) |-> es[i].t.n]) THEN OpenOut
+                      ELSE IF cls \in {"tree", "either"} /\ ~UniqueOK(csn, Mat([i \in 1..Len(es) |-> es[i].t])) THEN ErrOut
                       ELSE Out(cls, N(csn.n, << >>, Mat([i \in 1..Len(es) |-> es[i].t])))
 DecXKids(psn, els) ==
   LET names == FirstNames(els, 1, << >>)
